@@ -513,3 +513,70 @@ class SummandTranslator(KernelTranslator):
         body = self.body(ob[1].body)
         return (f"Definition {coqname} {{T D : Type}} (N : Num T) (V : Data T D) {binders} (r : prow T D) (s : scan D) : D :=\n"
                 f"  {body}.")
+
+
+class AccumulationTranslator(SummandTranslator):
+    """`lanczos_interpolation(t, x, a)`: integer bounds, `out = 0.0`, one `for i in range(lo, hi): out += e`
+    loop, `return out`  ->  fold_left (fun out i => dadd V out e) (zrange lo (Z.to_nat (hi - lo))) (dzero V).
+    `x` is a row of sample values, `len(x)` its length (a Z parameter), `x[k]` is `sample V x k`,
+    `sinc(u)` the model's sinc (itself tied to the source)."""
+
+    def expr(self, e):
+        if isinstance(e, ast.Subscript) and isinstance(e.value, ast.Name) and self.types.get(e.value.id) == "Row":
+            i = self.expr(e.slice)
+            if i[1] != "Z":
+                raise Untranslatable("row index is not an integer")
+            return f"(sample V v_{e.value.id} {i[0]})", "D"
+        if isinstance(e, ast.Call) and isinstance(e.func, ast.Name) and e.func.id == "len" and len(e.args) == 1 \
+                and isinstance(e.args[0], ast.Name) and self.types.get(e.args[0].id) == "Row":
+            return f"v_len_{e.args[0].id}", "Z"
+        if isinstance(e, ast.Call) and isinstance(e.func, ast.Name) and e.func.id == "sinc" and len(e.args) == 1:
+            return f"(sinc N {self.asT(self.expr(e.args[0]))})", "T"
+        return super().expr(e)
+
+    def accumulation(self, src, pyname, coqname, params):
+        """params: [(name, 'T' | 'Z' | 'Row')]; a `v_len_<row>` binder precedes every row."""
+        tree = ast.parse(textwrap.dedent(src))
+        fns = [n for n in tree.body if isinstance(n, ast.FunctionDef) and n.name == pyname]
+        if not fns:
+            raise Untranslatable(f"function {pyname} not found")
+        fn = fns[-1]
+        if [a.arg for a in fn.args.args] != [p for p, _ in params]:
+            raise Untranslatable(f"parameters of {pyname} are {[a.arg for a in fn.args.args]}")
+        binders = []
+        for p_, k in params:
+            self.types[p_] = k
+            if k == "Row":
+                binders.append(f"(v_len_{p_} : Z) (v_{p_} : list D)")
+            else:
+                binders.append(f"(v_{p_} : {k})")
+        stmts = [s for s in fn.body if not (isinstance(s, ast.Expr) and isinstance(s.value, ast.Constant))]
+        lets = []
+        while stmts and isinstance(stmts[0], ast.Assign) and ast.unparse(stmts[0]) != "out = 0.0":
+            s = stmts.pop(0)
+            if len(s.targets) != 1 or not isinstance(s.targets[0], ast.Name):
+                raise Untranslatable("assignment target")
+            t, ty = self.expr(s.value)
+            self.types[s.targets[0].id] = ty
+            lets.append(f"let v_{s.targets[0].id} := {t} in")
+        if len(stmts) != 3 or ast.unparse(stmts[0]) != "out = 0.0" or not isinstance(stmts[1], ast.For) \
+                or ast.unparse(stmts[2]) != "return out":
+            raise Untranslatable("not `out = 0.0; for i in range(lo, hi): out += e; return out`")
+        loop = stmts[1]
+        it = loop.iter
+        if not (isinstance(loop.target, ast.Name) and isinstance(it, ast.Call) and isinstance(it.func, ast.Name)
+                and it.func.id == "range" and len(it.args) == 2 and len(loop.body) == 1
+                and isinstance(loop.body[0], ast.AugAssign) and ast.unparse(loop.body[0].target) == "out"
+                and isinstance(loop.body[0].op, ast.Add)):
+            raise Untranslatable("loop shape")
+        lo, hi = self.expr(it.args[0]), self.expr(it.args[1])
+        if lo[1] != "Z" or hi[1] != "Z":
+            raise Untranslatable("range bounds are not integers")
+        self.types[loop.target.id] = "Z"
+        e, ty = self.expr(loop.body[0].value)
+        if ty != "D":
+            raise Untranslatable("the summand is not a sample value")
+        body = (f"fold_left (fun v_out v_{loop.target.id} => dadd V v_out {e})\n"
+                f"    (zrange {lo[0]} (Z.to_nat ({hi[0]} - {lo[0]})%Z)) (dzero V)")
+        return (f"Definition {coqname} {{T D : Type}} (N : Num T) (V : Data T D) {' '.join(binders)} : D :=\n  "
+                + "\n  ".join(lets) + "\n  " + body + ".")
